@@ -9,6 +9,7 @@ from . import proj
 
 PLAN = None
 DELAY_SEED = None
+MARKER = None          # file touched (by whichever process raises) when the injected fault fires
 _SAVED = {}
 _COUNTS = {}
 
@@ -22,6 +23,12 @@ def _orig_optimizer():
     return front_end.admm_optimize_theta
 
 
+def _fired():
+    if MARKER:
+        with open(MARKER, "a") as fh:
+            fh.write("fired\n")
+
+
 def optimizer_wrapper(empirical_covariance, *args, **kwargs):
     """Runs inside the pool worker."""
     d = proj.dig(empirical_covariance)
@@ -29,6 +36,7 @@ def optimizer_wrapper(empirical_covariance, *args, **kwargs):
         h = int(hashlib.sha256(f"{DELAY_SEED}:{d}".encode()).hexdigest()[:8], 16)
         time.sleep((h % 1000) / 1000.0 * 0.06)
     if PLAN and PLAN.get("kind") == "task" and PLAN.get("covDig") == d:
+        _fired()
         if PLAN.get("exc") == "ValueError":
             raise ValueError("injected task failure")
         if PLAN.get("exc") == "hard_exit":
@@ -43,6 +51,7 @@ def _phase_wrapper(name, orig):
         n = _COUNTS.get(name, 0)
         _COUNTS[name] = n + 1
         if PLAN and PLAN.get("kind") == "phase" and PLAN.get("phase") == name and PLAN.get("call") == n:
+            _fired()
             raise InjectedFault(f"injected failure in phase {name} call {n}")
         return orig(*a, **kw)
     return wrapped
@@ -56,11 +65,11 @@ PHASES = {
 }
 
 
-def install(plan, delay_seed=None):
-    global PLAN, DELAY_SEED
+def install(plan, delay_seed=None, marker=None):
+    global PLAN, DELAY_SEED, MARKER
     import importlib
     uninstall()
-    PLAN, DELAY_SEED = plan, delay_seed
+    PLAN, DELAY_SEED, MARKER = plan, delay_seed, marker
     _COUNTS.clear()
     if plan is None and delay_seed is None:
         return
@@ -75,9 +84,9 @@ def install(plan, delay_seed=None):
 
 
 def uninstall():
-    global PLAN, DELAY_SEED
+    global PLAN, DELAY_SEED, MARKER
     import importlib
     for (modname, attr), orig in list(_SAVED.items()):
         setattr(importlib.import_module(modname), attr, orig)
     _SAVED.clear()
-    PLAN, DELAY_SEED = None, None
+    PLAN, DELAY_SEED, MARKER = None, None, None
